@@ -405,10 +405,26 @@ impl Prop for C15 {
         let cases = sh.share(sh.tier.pick(12_000, 300_000));
         let cfg = GenCfg::core(sh.tier.pick(16, 36), sh.tier.pick(3, 5));
         sh.search(1, cases, 40, sh.tier.pick(300, 700), |sh, tape| {
-            let prog = Gen::new(tape, &cfg).core_program();
-            let r = render(&prog, &Layout::plain());
+            // generator and layout are drawn first: the positions of the constructs (which name the generated labels) vary with the layout
+            let mut t = crate::engine::Tape::new(tape);
+            let which = t.choose(4);
+            let lay = if t.chance(1, 2) { Layout::plain() } else { crate::props::c11::random_layout(&mut t) };
+            let used = t.used();
+            let rest = &tape[used.min(tape.len())..];
+            let (prog, source) = match which {
+                0 | 1 => (Gen::new(rest, &cfg).core_program(), "gen-core"),
+                2 => {
+                    let mut c2 = GenCfg::core(8, 2);
+                    c2.procs = true;
+                    c2.data = false;
+                    c2.deftypes = false;
+                    (Gen::new(rest, &c2).calls_program(), "gen-calls")
+                }
+                _ => (Gen::new(rest, &GenCfg::core(20, 3)).control_program(), "gen-control"),
+            };
+            let r = render(&prog, &lay);
             sh.sample_sparse(499, || json!({"program": r.text}));
-            check_text(sh, &r.text, "gen-core", true)
+            check_text(sh, &r.text, source, true)
         });
         crate::props::shapes::run_all(sh, &mut |sh, text, source| check_text(sh, text, source, true));
     }
